@@ -7,6 +7,7 @@ import (
 	"go/token"
 	"go/types"
 	"sort"
+	"strings"
 
 	"golang.org/x/tools/go/ssa"
 
@@ -1235,5 +1236,581 @@ func RNegClear(c *core.Ctx) {
 	}
 	if n == 0 {
 		c.Anchor("stores of false into CharSet.negate of an existing class")
+	}
+}
+
+// ---------------------------------------------------------------------------
+// R-DIRCOUNT: how many characters are left is asked in the direction of
+// travel.  rightchars() / leftchars() are absolute (towards the end / the
+// beginning of the text) and belong to the anchors, which test a fixed side;
+// every opcode that consumes text runs in the program's direction and counts
+// with forwardchars().
+// ---------------------------------------------------------------------------
+
+var anchorOpcodes = map[string]bool{
+	"Bol": true, "Eol": true, "Boundary": true, "Nonboundary": true, "ECMABoundary": true, "NonECMABoundary": true,
+	"Beginning": true, "Start": true, "EndZ": true, "End": true,
+}
+
+func RDirCount(c *core.Ctx) {
+	c.Rule("R-DIRCOUNT", "in the interpreter switch (executeDefault) the absolute accessors rightchars() / leftchars() are called only in arms whose opcodes are all anchors (Bol, Eol, Beginning, Start, EndZ, End, the boundaries): an arm of a text-consuming opcode bounds its count by forwardchars(), the characters left in the direction the program runs", 4)
+	p := c.P
+	pk := p.Pkg("")
+	info := pk.TypesInfo
+	fd, _ := p.DeclOf(p.LookupFunc("", "executeDefault"))
+	abs := map[*types.Func]string{}
+	for _, nm := range []string{"rightchars", "leftchars"} {
+		if f := p.LookupFunc("", "Runner."+nm); f != nil {
+			abs[f] = nm
+		}
+	}
+	if fd == nil || len(abs) != 2 {
+		c.Anchor("regexp2.executeDefault / Runner.rightchars / Runner.leftchars")
+		return
+	}
+	c.Visit("regexp2.executeDefault")
+	n := 0
+	ast.Inspect(fd.Body, func(x ast.Node) bool {
+		cc, ok := x.(*ast.CaseClause)
+		if !ok {
+			return true
+		}
+		var calls []*ast.CallExpr
+		for _, st := range cc.Body {
+			ast.Inspect(st, func(y ast.Node) bool {
+				if _, ok := y.(*ast.CaseClause); ok {
+					return false
+				}
+				if call, ok := y.(*ast.CallExpr); ok {
+					if _, ok := abs[core.Callee(info, call)]; ok {
+						calls = append(calls, call)
+					}
+				}
+				return true
+			})
+		}
+		if len(calls) == 0 {
+			return true
+		}
+		allAnchors := cc.List != nil
+		label := ""
+		for _, e := range cc.List {
+			nm := ""
+			if sel, ok := ast.Unparen(e).(*ast.SelectorExpr); ok {
+				if k, ok := info.ObjectOf(sel.Sel).(*types.Const); ok {
+					nm = core.BaseName(k)
+				}
+			} else if id, ok := ast.Unparen(e).(*ast.Ident); ok {
+				if k, ok := info.ObjectOf(id).(*types.Const); ok {
+					nm = core.BaseName(k)
+				}
+			}
+			if label != "" {
+				label += ","
+			}
+			label += types.ExprString(e)
+			if !anchorOpcodes[nm] {
+				allAnchors = false
+			}
+		}
+		for _, call := range calls {
+			n++
+			key := fmt.Sprintf("executeDefault / absolute character count #%d stands in an anchor arm", n)
+			if allAnchors {
+				c.OK(key, call.Pos(), "`%s` in the arm of %s", types.ExprString(call), label)
+			} else {
+				c.Bad(key, call.Pos(), "`%s` in the arm of %s: the opcode also runs right-to-left, where the characters it can take lie to the LEFT of the position; bounding the count by the absolute side makes a right-to-left lazy loop stop short (or read before the start of the text)", types.ExprString(call), label)
+			}
+		}
+		return true
+	})
+	if n == 0 {
+		c.Anchor("calls of rightchars / leftchars in executeDefault")
+	}
+}
+
+// ---------------------------------------------------------------------------
+// R-STACKREL: a saved stack position is a depth, not an index.
+// The three runner stacks grow at the FRONT: grow* allocates a larger slice,
+// copies the content to its end and shifts the position by the difference.  A
+// position that is remembered across other operations (Setjump saves the track
+// position on the grouping stack, Backjump restores it) is therefore stored as
+// the distance from the end, len(stack) - pos, which growing does not change.
+// ---------------------------------------------------------------------------
+
+func RStackRel(c *core.Ctx) {
+	c.Rule("R-STACKREL", "for each runner stack (runtrack/Runtrackpos, runstack/Runstackpos, runcrawl/runcrawlpos): a function that hands its position out (returns it, or passes it to another function) hands out len(stack) - pos, and a function that installs a position it was given stores len(stack) - given; the raw index never leaves or enters, because growing the stack moves its content to the end of a larger slice and shifts every index", 4)
+	p := c.P
+	type stk struct{ pos, sl *types.Var }
+	var stacks []stk
+	for _, pr := range [][2]string{{"Runtrackpos", "runtrack"}, {"Runstackpos", "runstack"}, {"runcrawlpos", "runcrawl"}} {
+		a, b := p.LookupField("", "Runner", pr[0]), p.LookupField("", "Runner", pr[1])
+		if a == nil || b == nil {
+			c.Anchor("Runner." + pr[0] + " / Runner." + pr[1])
+			continue
+		}
+		stacks = append(stacks, stk{a, b})
+	}
+	if len(stacks) == 0 {
+		return
+	}
+	posOf := func(v ssa.Value) *types.Var {
+		if ld, ok := v.(*ssa.UnOp); ok && ld.Op == token.MUL {
+			f := core.FieldVarOfAddr(ld.X)
+			for _, s := range stacks {
+				if s.pos == f {
+					return f
+				}
+			}
+		}
+		return nil
+	}
+	lenOf := func(v ssa.Value) *types.Var {
+		call, ok := v.(*ssa.Call)
+		if !ok {
+			return nil
+		}
+		if bi, ok := call.Call.Value.(*ssa.Builtin); !ok || bi.Name() != "len" || len(call.Call.Args) != 1 {
+			return nil
+		}
+		if ld, ok := call.Call.Args[0].(*ssa.UnOp); ok && ld.Op == token.MUL {
+			return core.FieldVarOfAddr(ld.X)
+		}
+		return nil
+	}
+	slOf := func(pos *types.Var) *types.Var {
+		for _, s := range stacks {
+			if s.pos == pos {
+				return s.sl
+			}
+		}
+		return nil
+	}
+	pushesParam := func(cal *ssa.Function) bool {
+		for _, b := range cal.Blocks {
+			for _, ins := range b.Instrs {
+				st, ok := ins.(*ssa.Store)
+				if !ok {
+					continue
+				}
+				if _, isP := st.Val.(*ssa.Parameter); !isP {
+					continue
+				}
+				if ia, ok := st.Addr.(*ssa.IndexAddr); ok {
+					if ld, ok := ia.X.(*ssa.UnOp); ok && ld.Op == token.MUL {
+						f := core.FieldVarOfAddr(ld.X)
+						for _, s := range stacks {
+							if s.sl == f {
+								return true
+							}
+						}
+					}
+				}
+			}
+		}
+		return false
+	}
+	n := 0
+	for _, fn := range p.ModuleFuncs() {
+		if core.FnPkgPath(fn) != core.PkgRoot {
+			continue
+		}
+		name := core.SSAName(fn)
+		ord := 0
+		report := func(ok bool, pos token.Pos, what, detail string) {
+			n++
+			ord++
+			c.Visit(name)
+			key := fmt.Sprintf("%s / stack position #%d (%s) is relative to the end of the stack", name, ord, what)
+			if ok {
+				c.OK(key, pos, "%s", detail)
+			} else {
+				c.Bad(key, pos, "%s: when the stack grows in between (a loop inside a look-around or atomic group pushes past the current capacity) the content moves and the remembered index points into the wrong frame — a wrong \"no match\" or an index out of range on the first call only", detail)
+			}
+		}
+		for _, b := range fn.Blocks {
+			for _, ins := range b.Instrs {
+				switch x := ins.(type) {
+				case *ssa.Return:
+					for _, r := range x.Results {
+						if f := posOf(r); f != nil {
+							report(false, x.Pos(), "returned", "the raw index "+f.Name()+" is returned")
+						} else if bin, ok := r.(*ssa.BinOp); ok && bin.Op == token.SUB {
+							if f := posOf(bin.Y); f != nil {
+								report(lenOf(bin.X) == slOf(f), x.Pos(), "returned", "len("+slOf(f).Name()+") - "+f.Name())
+							}
+						}
+					}
+				case *ssa.Store:
+					f := core.FieldVarOfAddr(x.Addr)
+					if slOf(f) == nil {
+						continue
+					}
+					if _, isP := x.Val.(*ssa.Parameter); isP {
+						report(false, x.Pos(), "installed", "a position handed in by the caller is stored into "+f.Name()+" as it is")
+					} else if bin, ok := x.Val.(*ssa.BinOp); ok && bin.Op == token.SUB {
+						if _, isP := bin.Y.(*ssa.Parameter); isP {
+							report(lenOf(bin.X) == slOf(f), x.Pos(), "installed", f.Name()+" = len("+slOf(f).Name()+") - given")
+						}
+					}
+				case ssa.CallInstruction:
+					for _, a := range x.Common().Args {
+						if f := posOf(a); f != nil {
+							// handing the index to a function that writes it onto a stack is remembering it
+							if cal := x.Common().StaticCallee(); cal != nil && core.InModule(cal) && pushesParam(cal) {
+								report(false, x.Pos(), "passed on", "the raw index "+f.Name()+" is pushed by "+core.BaseName(cal))
+							}
+						}
+					}
+				}
+			}
+		}
+	}
+	if n == 0 {
+		c.Anchor("functions that hand out or install a stack position")
+	}
+}
+
+// ---------------------------------------------------------------------------
+// R-ERRIDENT: an error keeps its identity on the way out.
+// Callers tell a stack-limit stop from a timeout with errors.Is / == against
+// the exported sentinels.  An error received from the matcher is therefore
+// returned as it is, or wrapped with %w; formatting it with %v / %s (or
+// errors.New(err.Error())) produces a new error the sentinel no longer
+// matches.
+// ---------------------------------------------------------------------------
+
+func RErrIdent(c *core.Ctx) {
+	c.Rule("R-ERRIDENT", "in packages regexp2 and compat no value of type error is formatted into a new error: every fmt.Errorf that takes an error argument has a %w verb for it, and errors.New is never applied to the text of another error — ErrBacktrackingStackLimit and the timeout error stay recognisable (errors.Is) through every entry point", 1)
+	p := c.P
+	errT := types.Universe.Lookup("error").Type()
+	n, examined := 0, 0
+	for _, pkn := range []string{"", "compat"} {
+		pk := p.Pkg(pkn)
+		if pk == nil {
+			continue
+		}
+		info := pk.TypesInfo
+		for _, fd := range p.FuncDecls(pk) {
+			if fd.Body == nil || p.IsTestFile(fd.Pos()) {
+				continue
+			}
+			name := core.DeclName(pk, fd)
+			ast.Inspect(fd.Body, func(x ast.Node) bool {
+				call, ok := x.(*ast.CallExpr)
+				if !ok {
+					return true
+				}
+				cal := core.Callee(info, call)
+				if cal == nil || cal.Pkg() == nil {
+					return true
+				}
+				full := cal.Pkg().Path() + "." + cal.Name()
+				switch full {
+				case "fmt.Errorf":
+					examined++
+					nErr := 0
+					for _, a := range call.Args[1:] {
+						if t := info.TypeOf(a); t != nil && types.Implements(t, errT.Underlying().(*types.Interface)) {
+							if _, isIface := t.Underlying().(*types.Interface); isIface || types.Identical(t, errT) {
+								nErr++
+							}
+						}
+					}
+					if nErr == 0 {
+						return true
+					}
+					wraps := 0
+					if tv, ok := info.Types[call.Args[0]]; ok && tv.Value != nil && tv.Value.Kind() == constant.String {
+						wraps = strings.Count(constant.StringVal(tv.Value), "%w")
+					}
+					if wraps < nErr {
+						n++
+						c.Visit(name)
+						c.Bad(fmt.Sprintf("%s / error formatted into a new error #%d", name, n), call.Pos(), "`%s` formats an error with a verb other than %%w: the result no longer matches ErrBacktrackingStackLimit / the timeout error under errors.Is or ==", types.ExprString(call))
+					}
+				case "errors.New":
+					examined++
+					bad := false
+					ast.Inspect(call.Args[0], func(y ast.Node) bool {
+						if c2, ok := y.(*ast.CallExpr); ok {
+							if sel, ok := ast.Unparen(c2.Fun).(*ast.SelectorExpr); ok && sel.Sel.Name == "Error" {
+								if t := info.TypeOf(sel.X); t != nil && types.Implements(t, errT.Underlying().(*types.Interface)) {
+									bad = true
+								}
+							}
+						}
+						return true
+					})
+					if bad {
+						n++
+						c.Visit(name)
+						c.Bad(fmt.Sprintf("%s / error formatted into a new error #%d", name, n), call.Pos(), "`%s` builds a new error from the text of another one: the sentinel's identity is lost", types.ExprString(call))
+					}
+				}
+				return true
+			})
+		}
+	}
+	if n == 0 {
+		c.OK("packages regexp2, compat / errors keep their identity", token.NoPos, "%d fmt.Errorf / errors.New calls examined, none re-formats an error", examined)
+	}
+}
+
+// ---------------------------------------------------------------------------
+// R-STARTSET: elapsed time is measured from a start that has been set.
+// fast.start is the zero Time until the first deadline is made.
+// time.Since(zero) saturates at the largest Duration: written into
+// fast.current it puts the first deadline of the process centuries ahead, and
+// that one call never times out.
+// ---------------------------------------------------------------------------
+
+func RStartSet(c *core.Ctx) {
+	c.Rule("R-STARTSET", "every time.Since(fast.start) (or Sub from it) is computed where fast.start is known to be set: behind a !fast.start.IsZero() test in the same function, or in the clock goroutine, which is spawned only behind extendClock's zero test that sets it", 2)
+	p := c.P
+	start := p.LookupField("", "fastclock", "start")
+	if start == nil {
+		c.Anchor("fastclock.start")
+		return
+	}
+	isStartLoad := func(v ssa.Value) bool {
+		ld, ok := v.(*ssa.UnOp)
+		return ok && ld.Op == token.MUL && core.FieldVarOfAddr(ld.X) == start
+	}
+	isZeroCall := func(v ssa.Value) bool {
+		call, ok := v.(*ssa.Call)
+		if !ok {
+			return false
+		}
+		cal := call.Call.StaticCallee()
+		if cal == nil || cal.Name() != "IsZero" || cal.Pkg == nil || cal.Pkg.Pkg.Path() != "time" || len(call.Call.Args) != 1 {
+			return false
+		}
+		return isStartLoad(call.Call.Args[0])
+	}
+	// blocks reached only when start is not zero: under the false edge of an IsZero branch
+	// (looking through && / || phis: a condition that IMPLIES !IsZero on its true edge)
+	var impliesSet func(cond ssa.Value, val bool, depth int) bool
+	impliesSet = func(cond ssa.Value, val bool, depth int) bool {
+		if depth > 4 {
+			return false
+		}
+		if isZeroCall(cond) {
+			return !val
+		}
+		switch x := cond.(type) {
+		case *ssa.UnOp:
+			if x.Op == token.NOT {
+				return impliesSet(x.X, !val, depth+1)
+			}
+		case *ssa.Phi:
+			// a && b, true edge: every edge value that can be true must imply it. Edges that are the
+			// constant !val cannot produce val.
+			for _, e := range x.Edges {
+				if k, ok := e.(*ssa.Const); ok && k.Value != nil && k.Value.Kind() == constant.Bool && constant.BoolVal(k.Value) != val {
+					continue
+				}
+				if !impliesSet(e, val, depth+1) {
+					// for a && b the left operand being true is needed as well: it is established by the
+					// branch that leads into the block computing b — accept when ANY operand implies it
+					// only for the conjunction shape (val == true and the other edges are constant false)
+					return false
+				}
+			}
+			return true
+		}
+		return false
+	}
+	guarded := func(b *ssa.BasicBlock) bool {
+		for d := b; d != nil; d = d.Idom() {
+			idom := d.Idom()
+			if idom == nil || len(idom.Instrs) == 0 || len(idom.Succs) != 2 {
+				continue
+			}
+			ifi, ok := idom.Instrs[len(idom.Instrs)-1].(*ssa.If)
+			if !ok {
+				continue
+			}
+			for k := 0; k < 2; k++ {
+				sc := idom.Succs[k]
+				if (sc == d || sc.Dominates(d)) && len(sc.Preds) == 1 && impliesSet(ifi.Cond, k == 0, 0) {
+					return true
+				}
+			}
+		}
+		return false
+	}
+	// functions started as goroutines only behind a zero test that sets start
+	spawnedSafe := func(fn *ssa.Function) bool {
+		found, all := false, true
+		for _, g := range p.ModuleFuncs() {
+			for _, b := range g.Blocks {
+				for _, ins := range b.Instrs {
+					goi, ok := ins.(*ssa.Go)
+					if !ok || goi.Call.StaticCallee() != fn {
+						continue
+					}
+					found = true
+					// some block that dominates the go statement tests IsZero and its true branch stores start
+					ok2 := false
+					for d := b; d != nil; d = d.Idom() {
+						if len(d.Instrs) == 0 || len(d.Succs) != 2 {
+							continue
+						}
+						if ifi, ok := d.Instrs[len(d.Instrs)-1].(*ssa.If); ok && isZeroCall(ifi.Cond) {
+							for _, in2 := range d.Succs[0].Instrs {
+								if st, ok := in2.(*ssa.Store); ok && core.FieldVarOfAddr(st.Addr) == start {
+									ok2 = true
+								}
+							}
+						}
+					}
+					if !ok2 {
+						all = false
+					}
+				}
+			}
+		}
+		// and nobody calls it directly
+		if node := p.CallGraph().Nodes[fn]; node != nil {
+			for _, e := range node.In {
+				if _, isGo := e.Site.(*ssa.Go); !isGo {
+					all = false
+				}
+			}
+		}
+		return found && all
+	}
+	n := 0
+	for _, fn := range p.ModuleFuncs() {
+		if core.FnPkgPath(fn) != core.PkgRoot {
+			continue
+		}
+		name := core.SSAName(fn)
+		ord := 0
+		for _, b := range fn.Blocks {
+			for _, ins := range b.Instrs {
+				call, ok := ins.(*ssa.Call)
+				if !ok {
+					continue
+				}
+				cal := call.Call.StaticCallee()
+				if cal == nil || cal.Pkg == nil || cal.Pkg.Pkg.Path() != "time" {
+					continue
+				}
+				uses := false
+				switch cal.Name() {
+				case "Since":
+					uses = len(call.Call.Args) == 1 && isStartLoad(call.Call.Args[0])
+				case "Sub":
+					uses = len(call.Call.Args) == 2 && isStartLoad(call.Call.Args[1])
+				}
+				if !uses {
+					continue
+				}
+				n++
+				ord++
+				c.Visit(name)
+				key := fmt.Sprintf("%s / elapsed time #%d is measured from a start that is set", name, ord)
+				switch {
+				case guarded(b):
+					c.OK(key, call.Pos(), "behind a test that fast.start is not zero")
+				case spawnedSafe(fn):
+					c.OK(key, call.Pos(), "%s only runs as the goroutine spawned behind extendClock's zero test, which sets fast.start", core.BaseName(fn))
+				default:
+					c.Bad(key, call.Pos(), "time.Since(fast.start) can be evaluated while fast.start is still the zero Time: the difference saturates, current jumps to the far future and the deadline computed from it is never reached — the first timed match of the process cannot time out")
+				}
+			}
+		}
+	}
+	if n == 0 {
+		c.Anchor("time.Since(fast.start)")
+	}
+}
+
+// ---------------------------------------------------------------------------
+// R-EQSUB: two classes are equal only if their subtractions are.
+// CharSet.equals decides whether alternation branches may share one class
+// (prefix factoring) and whether a class and its successor are inverses; it
+// answers the constant true only for two nil classes, and otherwise ends in
+// the comparison of the subtractions, which (nil against non-nil) is false.
+// ---------------------------------------------------------------------------
+
+func REqSub(c *core.Ctx) {
+	c.Rule("R-EQSUB", "CharSet.equals returns the constant true only under a test that both classes are nil; every other true comes from the recursive comparison of the two subtractions, which is not skipped when only one side has one: [a-z-[aeiou]] and [a-z] are different classes", 2)
+	p := c.P
+	syn := p.Pkg("syntax")
+	info := syn.TypesInfo
+	eq := p.LookupFunc("syntax", "CharSet.equals")
+	fd, _ := p.DeclOf(eq)
+	sub := p.LookupField("syntax", "CharSet", "sub")
+	if fd == nil || sub == nil {
+		c.Anchor("syntax.CharSet.equals / CharSet.sub")
+		return
+	}
+	c.Visit("syntax.(*CharSet).equals")
+	isNilTest := func(e ast.Expr) int { // number of `x == nil` comparisons in a conjunction
+		cnt := 0
+		ast.Inspect(e, func(y ast.Node) bool {
+			if be, ok := y.(*ast.BinaryExpr); ok && be.Op == token.EQL {
+				if id, ok := ast.Unparen(be.Y).(*ast.Ident); ok && id.Name == "nil" {
+					if _, isSel := ast.Unparen(be.X).(*ast.SelectorExpr); !isSel {
+						cnt++
+					}
+				}
+			}
+			return true
+		})
+		return cnt
+	}
+	n := 0
+	recursion := false
+	var stack []ast.Node
+	ast.Inspect(fd.Body, func(x ast.Node) bool {
+		if x == nil {
+			stack = stack[:len(stack)-1]
+			return true
+		}
+		stack = append(stack, x)
+		rs, ok := x.(*ast.ReturnStmt)
+		if !ok || len(rs.Results) != 1 {
+			return true
+		}
+		res := ast.Unparen(rs.Results[0])
+		if tv, ok := info.Types[res]; ok && tv.Value != nil && tv.Value.String() == "true" {
+			n++
+			key := fmt.Sprintf("equals / constant true #%d is for two nil classes", n)
+			okNil := false
+			for i := len(stack) - 2; i >= 0; i-- {
+				if ifs, ok := stack[i].(*ast.IfStmt); ok && isNilTest(ifs.Cond) >= 2 {
+					okNil = true
+				}
+			}
+			c.Check(okNil, key, rs.Pos(), "`return true` is reached for two classes that were compared field by field but whose subtractions were not: a class with a subtraction equals the same class without one, and prefix factoring of `[a-z-[aeiou]]1|[a-z]2` keeps only the first branch's class")
+			return true
+		}
+		if call, ok := res.(*ast.CallExpr); ok && core.Callee(info, call) == eq {
+			if sel, ok := ast.Unparen(call.Fun).(*ast.SelectorExpr); ok && core.FieldOf(info, sel.X) == sub && len(call.Args) >= 1 && core.FieldOf(info, call.Args[0]) == sub {
+				recursion = true
+				n++
+				// not under a condition on the subtraction fields
+				cond := false
+				for i := len(stack) - 2; i >= 0; i-- {
+					if ifs, ok := stack[i].(*ast.IfStmt); ok {
+						ast.Inspect(ifs.Cond, func(y ast.Node) bool {
+							if e, ok := y.(ast.Expr); ok && core.FieldOf(info, e) == sub {
+								cond = true
+							}
+							return true
+						})
+					}
+				}
+				c.Check(!cond, "equals / the subtractions are compared unconditionally", rs.Pos(), "the recursive comparison of the subtractions stands under a condition on the subtraction fields: the case where only one class has a subtraction is decided elsewhere")
+			}
+		}
+		return true
+	})
+	if !recursion {
+		c.Bad("equals / the subtractions are compared unconditionally", fd.Pos(), "no `return c.sub.equals(c2.sub, …)` found: the subtraction does not take part in the comparison")
 	}
 }
